@@ -50,7 +50,9 @@ def evaluate(ctx, res, spec, start, ext_ops, cfg, pre_start_ops=()):
   if instr and st['cur'] != names[m.cur]:
     return bad('C23', 'C23/current-state-after-start', 'current_state() %r after start_at, current state is %s' % (st['cur'], names[m.cur]))
   ctx.count('name_observations')
-  cur_after = {0: m.cur}       # model rest state after k steps
+  cur_after = {(0, 0): m.cur}       # model rest state after k steps and r further starts
+  spy_bad = False
+  nrestart = 0
   exp_full = []
   exp_live_spy = []          # what the live callback must have seen: never emptied by clear_spy()
   exp_trace = []
@@ -82,7 +84,43 @@ def evaluate(ctx, res, spec, start, ext_ops, cfg, pre_start_ops=()):
         exp_trace = []
         prev_ntrace = 0
       continue
-    if kind is not None:
+    if kind == 'restart':
+      # a further start_at of the same chart object: it must do - and record - what a first start does
+      ctx.count('restarts_of_a_started_chart')
+      rs = res.restarts[nrestart]
+      nrestart += 1
+      exp_start = m.start(sig)
+      if [r for r in rs['log'] if r[0] in ('entry', 'exit', 'init')] != exp_start:
+        return bad('C03', 'C03/start-actions-differ', 'second start_at(%s) of the same chart: log %r expected %r' % (names[sig], rs['log'], exp_start))
+      qm.apply_acts(rs['log'], None)
+      if qm.bad:
+        return bad('C15', 'C15/recall-order', qm.bad)
+      if rs['rest'] != names[m.cur]:
+        return bad('C23', 'C23/state-name-after-start', 'state_name %r after a further start_at(%s) of the same chart, current state is %s' % (rs['rest'], names[sig], names[m.cur]))
+      if not res.run.is_handler_of(rs['state_fn'], m.cur):
+        return bad('C23', 'C23/state-fn-after-start', 'state_fn %r after a further start_at(%s) of the same chart, current state is %s' % (rs['state_fn'], names[sig], names[m.cur]))
+      if instr and rs['cur'] != names[m.cur]:
+        return bad('C23', 'C23/current-state-after-start', 'current_state() %r after a further start_at(%s) of the same chart, current state is %s' % (rs['cur'], names[sig], names[m.cur]))
+      cur_after[(i, nrestart)] = m.cur
+      if instr:
+        exp = ['START'] + qrun.expected_spy_lines(rs['calls']) + [reflection(len(qm.q), len(qm.d))]
+        ctx.count('spy_step_logs')
+        if rs['spy_rtc'] != exp and not spy_bad:
+          spy_bad = True
+          bad('C19', 'C19/start-spy-differs', 'spy_rtc() after a further start_at(%s) of the same chart (after %d steps): %r expected %r' % (names[sig], i, rs['spy_rtc'], exp), failing_step=i)
+        if exp_full is not None:
+          exp_full += exp
+        if exp_live_spy is not None:
+          exp_live_spy += exp
+        t = ('top', None, names[m.cur])
+        exp_trace.append(t)
+        exp_live_trace.append(('start_at', 'top', names[m.cur]))
+        dn = rs['ntrace'] - prev_ntrace
+        ring_full = prev_ntrace == RING
+        prev_ntrace = rs['ntrace']
+        if (dn != 1 and not ring_full) or rs['last_trace'] != t:
+          return bad('C20', 'C20/start-trace', 'a further start_at(%s) of the same chart (after %d steps) appended %d trace records, last %r; expected one %r' % (names[sig], i, dn, rs['last_trace'], t), failing_step=i)
+    elif kind is not None:
       qm.ext(kind, sig)
     while qm.q:
       want = qm.pop()
@@ -135,8 +173,11 @@ def evaluate(ctx, res, spec, start, ext_ops, cfg, pre_start_ops=()):
         if len(exp) < RTC_RING:
           ctx.count('spy_step_logs')
           ctx.maxc('max_spy_lines_per_step', len(exp))
-          if rec['spy_rtc'] != exp:
-            return bad('C19', 'C19/step-spy-differs', 'spy_rtc() after step %d (%s): %r expected %r' % (i, want, rec['spy_rtc'], exp), failing_step=i)
+          if rec['spy_rtc'] != exp and not spy_bad:
+            # (recorded, and the evaluation goes on: what the step log SHOULD hold comes from the ground truth, so the full spy,
+            # the trace and the live output of the run can still be judged - by the checks that own them)
+            spy_bad = True
+            bad('C19', 'C19/step-spy-differs', 'spy_rtc() after step %d (%s): %r expected %r' % (i, want, rec['spy_rtc'], exp), failing_step=i)
           if exp_full is not None:
             if any(r[0] == 'act' and r[1] == 'clear_spy' for r in rec['log']):
               # a handler emptied the full spy in the middle of this step: the step's own lines are added at its end
@@ -165,7 +206,7 @@ def evaluate(ctx, res, spec, start, ext_ops, cfg, pre_start_ops=()):
           if dn != 0:
             return bad('C20', 'C20/record-without-transition', 'step %d (%s, %s): %d new trace records, last %r' % (i, want, skind, dn, rec['last_trace']), failing_step=i)
       i += 1
-      cur_after[i] = m.cur
+      cur_after[(i, nrestart)] = m.cur
   if i != len(res.steps):
     return bad('C14', 'C14/extra-step', '%d steps ran, the deque model allows %d' % (len(res.steps), i))
   if qm.q:
@@ -174,14 +215,14 @@ def evaluate(ctx, res, spec, start, ext_ops, cfg, pre_start_ops=()):
     for (k, val) in getattr(res, 'cur_after_queries', ()):
       ctx.count('current_state_asked_after_queries')
       if k in cur_after and val != names[cur_after[k]]:
-        return bad('C23', 'C23/current-state-after-query', 'current_state() returned %r right after is_in / child_state queries made after step %d; the chart took no step and rests in %s' % (val, k - 1, names[cur_after[k]]), failing_step=k - 1)
+        return bad('C23', 'C23/current-state-after-query', 'current_state() returned %r right after is_in / child_state queries made after step %d; the chart took no step and rests in %s' % (val, k[0] - 1, names[cur_after[k]]), failing_step=k[0] - 1)
   if instr:
     if exp_full is not None:
       ctx.count('full_spy_compared')
       if len(exp_full) > RING:
         ctx.count('full_spy_ring_crossed')
-      if res.spy_full != exp_full[-RING:]:
-        return bad('C19', 'C19/full-spy-differs', 'spy() has %d lines and differs from the concatenation of the step logs (%d lines, ring %d)' % (len(res.spy_full), len(exp_full), RING),
+      if res.spy_full != exp_full[-RING:] and not spy_bad:
+        bad('C19', 'C19/full-spy-differs', 'spy() has %d lines and differs from the concatenation of the step logs (%d lines, ring %d)' % (len(res.spy_full), len(exp_full), RING),
                    got_tail=res.spy_full[-12:], expected_tail=exp_full[-12:])
     ctx.count('full_trace_compared')
     if getattr(res, 'trace_error', None):
